@@ -34,7 +34,10 @@ CLAIMS = {
          "number happened (3, 3/2, 1, 2); ConnData.remoteKey/authData change only after the keys exist; SetRemote/SetAuthData keep the old value when the callback "
          "rejects; DecryptAndHash reports an error iff the open failed and then leaves the transcript hash unchanged; the MAC of act 1 is checked against the "
          "transcript that absorbed the unmasked remote ephemeral key; the two pattern tables are the Noise patterns (lemmaNoisePatterns); NewBrontideMachine establishes "
-         "the wrappers' precondition; stretchPassphrase feeds the whole passphrase to scrypt.",
+         "the wrappers' precondition; stretchPassphrase feeds the whole passphrase to scrypt; the gRPC entry points NoiseGrpcConn.ClientHandshake/ServerHandshake run the "
+         "handshake as initiator/responder with the pattern chosen from the ConnData (XX before pairing, KK with version >= 2 once a remote key is stored) and the configured "
+         "version bounds, and return a connection iff DoHandshake returned nil (verified over summary contracts of NewBrontideMachine and DoHandshake whose clauses are the ones "
+         "the wrappers prove case by case).",
          "That a wrong passphrase or a wrong static key makes the MAC fail is a property of SPAKE2 masking, ECDH and ChaCha20-Poly1305 (ekeMask/ekeUnmask are "
          "trusted, point arithmetic is not modelled); what is proved is that nothing is released or installed unless the MACs verified."),
  "C04": ("Transcript mechanics proved per function: mixHash sets h := SHA-256(h || data); mixKey derives (ck, k) := HKDF(ck, input) and keys the cipher with k; "
@@ -46,7 +49,9 @@ CLAIMS = {
          "statement; it follows from the per-party clauses only under the AEAD/hash idealisation (paper argument)."),
  "C07": ("Every run-time panic obligation (index, slice bounds, nil dereference, division by zero, failing type assertion, close of closed channel, "
          "negative make) generated from the relay-facing functions of gbn (Deserialize, both handshakes, the receive loop, queue and syncer, timeout "
-         "manager) and of mailbox (MsgData.Deserialize, connKit.Read, Noise readers) is discharged for arbitrary input bytes, and the window "
+         "manager) and of mailbox (MsgData.Deserialize, connKit.Read, Noise readers, and the relay envelope: stripJSONWrapper, Recv/Send/Connect of the websocket and gRPC "
+         "transports, the receive/send retry loops and mailbox re-creation of ClientConn and ServerConn - a stream is used only if it exists, a reconnect never replaces a "
+         "live stream by nil, a message is looked into only when no error was reported) is discharged for arbitrary input bytes and relay answers, and the window "
          "invariant (base, top, recvSeq < s = n+1, 1 <= n <= 254) is established by the handshake and preserved for all 256 ACK/NACK/SYN values.",
          "Panics inside dependencies (btcec, protobuf, websocket, regexp) and memory exhaustion are not covered."),
  "C09": ("s = n+1 is established by newConfig/setN for every accepted n in 1..254; the queue invariant base, top < s is preserved by every operation "
@@ -72,7 +77,8 @@ CLAIMS = {
          "waits for the loops and stops every ticker created by start (ping, pong, resend); the FIN is written under a context created with the configured "
          "FIN timeout, that context is the one handed to the send function, and cancel() has not been called before it; a second Close changes nothing; Send/Recv entered after "
          "quit is closed return an error without touching the data channels; every blocking select of Send, Recv, both loops, both handshakes and the "
-         "resend syncer - including the goroutine literals the handshakes start - has an arm on a close-only quit channel or ctx.Done; plain channel sends "
+         "resend syncer - including the goroutine literals the handshakes start, the clock goroutine of the interval-aware ticker and the mailbox retry loops - has an arm on a "
+         "close-only quit channel or ctx.Done; plain channel sends "
          "need a free buffer slot, plain receives a quit/timer channel.",
          "'returns within a bounded time' and the wake-up of blocked callers as scheduling facts are not covered; goroutines blocked inside user callbacks are not covered."),
  "C14": ("Send hands the send loop chunks that are consecutive windows of the message of 1..maxChunk bytes, exactly the last one flagged final "
@@ -123,7 +129,8 @@ CLAIMS = {
          "close only of open non-nil channels, no send on a channel some close() can close without knowing it is open; no wait on a WaitGroup while holding "
          "a mutex that the goroutines signalling it lock (found by scanning the goroutine literals).",
          "Schedules are not enumerated. Fields without a declaration are not checked (queue.content, config fields); the bodies of anonymous goroutine "
-         "functions (ticker clock loop, handshake readers) are not under contract; races inside dependencies and deadlocks other than lock-order inversions are not covered."),
+         "functions (handshake readers) are not under contract - the ticker clock loop is swept only for 'every blocking select can be woken by the quit channel that Reset/Stop close "
+         "before waiting for it under resetMtx'; races inside dependencies and deadlocks other than lock-order inversions are not covered."),
  "C19": ("Every Serialize method and Deserialize of gbn and MsgData.Serialize/Deserialize of mailbox are verified against functional contracts "
          "(exact output bytes, exact decoded fields, error iff not well-formed) for all field values and a symbolic 64-bit payload length; the two "
          "round-trip statements are lemma functions verified modularly over those contracts.",
